@@ -1203,6 +1203,10 @@ func (g *c08Run) deterministic() error {
 		trap = append(trap, c08Op{Kind: "Init", S: B}, c08Op{Kind: "Init", S: C}, c08Op{Kind: "Init", S: 3}, c08Op{Kind: "Init", S: A}, c08Op{Kind: "SetHeight", H: 701}, c08Op{Kind: "Init", S: C},
 			c08Op{Kind: "Update", S: A, Name: rnstypes.MakeName(706, 700) + ".jkl", Data: "still-mine"})
 		hs = append(hs, trap)
+		// ... and the very name a height generates, paid for beforehand by A: the initialisation in that block does not get it
+		hs = append(hs, []c08Op{{Kind: "SetHeight", H: 20}, reg(A, rnstypes.MakeName(900, 900)+".jkl"), reg(A, rnstypes.MakeName(901, 901)+".jkl"), {Kind: "SetHeight", H: 900}, {Kind: "Init", S: B},
+			{Kind: "Update", S: A, Name: rnstypes.MakeName(900, 900) + ".jkl", Data: "still-mine"}, {Kind: "Update", S: B, Name: rnstypes.MakeName(900, 900) + ".jkl", Data: "taken"},
+			{Kind: "SetHeight", H: 901}, {Kind: "Init", S: B}, {Kind: "Init", S: C}, {Kind: "Transfer", S: A, Name: rnstypes.MakeName(901, 901) + ".jkl", T: 3}})
 	}
 	for i, h := range hs {
 		if err := g.fresh(); err != nil {
